@@ -367,3 +367,77 @@ Proof. unfold call_single, call_point. apply apply_discard_z. Qed.
 Lemma translate_no_effect_on_vectors t fr v : op_pair ROps (OTranslate t) = Ok fr ->
   apply_point ROps (fst fr) true v = v /\ apply_point ROps (snd fr) true v = v.
 Proof. cbn [op_pair]. intros H. injection H as <-. rewrite !apply_point_vec. apply tm_translation_vec. Qed.
+
+(* ---------------- the call over any sub-range, forward and reverse, in terms of the accepted calls ---------------- *)
+Definition accepts (o : op R) : bool := match op_pair ROps o with Ok _ => true | Raise _ => false end.
+Definition accepted_ops (ops : list (op R)) : list (op R) := filter accepts ops.
+Definition pair_of (o : op R) : mat4 R * mat4 R :=
+  match op_pair ROps o with Ok fr => fr | Raise _ => (I4 ROps, I4 ROps) end.
+(* what the stored inverse matrix of an accepted step does *)
+Definition step_inverse_action (o : op R) (w : bool) (q : vec3 R) : vec3 R := apply_point ROps (snd (pair_of o)) w q.
+
+Lemma run_ops_accepted ops : forall st, run_ops ROps ops st = st ++ map pair_of (accepted_ops ops).
+Proof.
+  induction ops as [|o ops IH]; intros st; [cbn; symmetry; apply app_nil_r|].
+  unfold run_ops. cbn [fold_left]. change (fold_left (step_state ROps) ops ?x) with (run_ops ROps ops x). rewrite IH.
+  unfold accepted_ops. cbn [filter].
+  destruct (step_state_cases st o) as [(fr & E & ->) | (e & E & ->)].
+  - assert (Ha : accepts o = true) by (unfold accepts; rewrite E; reflexivity).
+    assert (Hp : pair_of o = fr) by (unfold pair_of; rewrite E; reflexivity).
+    rewrite Ha. cbn [map]. rewrite Hp, <- app_assoc. reflexivity.
+  - assert (Ha : accepts o = false) by (unfold accepts; rewrite E; reflexivity). rewrite Ha. reflexivity.
+Qed.
+Lemma firstn_map' {A B} (f : A -> B) n l : firstn n (map f l) = map f (firstn n l).
+Proof. revert l; induction n; intros [|x l]; cbn; try reflexivity. f_equal. apply IHn. Qed.
+Lemma skipn_map' {A B} (f : A -> B) n l : skipn n (map f l) = map f (skipn n l).
+Proof. revert l; induction n; intros [|x l]; cbn; try reflexivity. apply IHn. Qed.
+Lemma fold_left_ext_in {A B} (f g : A -> B -> A) l : (forall a x, In x l -> f a x = g a x) ->
+  forall a, fold_left f l a = fold_left g l a.
+Proof.
+  induction l as [|x l IH]; intros H a; [reflexivity|]. cbn [fold_left]. rewrite H by (left; reflexivity).
+  apply IH. intros a' y Hy. apply H. right; exact Hy.
+Qed.
+Lemma In_firstn' {A} (x : A) n l : In x (firstn n l) -> In x l.
+Proof. intros H. rewrite <- (firstn_skipn n l). apply in_or_app. left; exact H. Qed.
+Lemma In_skipn' {A} (x : A) n l : In x (skipn n l) -> In x l.
+Proof. intros H. rewrite <- (firstn_skipn n l). apply in_or_app. right; exact H. Qed.
+Lemma accepted_In ops o : In o (accepted_ops ops) -> In o ops /\ exists fr, op_pair ROps o = Ok fr /\ pair_of o = fr.
+Proof.
+  unfold accepted_ops. rewrite filter_In. unfold accepts, pair_of. intros [Hin Ha]. split; [exact Hin|].
+  destruct (op_pair ROps o) as [fr|e]; [exists fr; split; reflexivity | discriminate].
+Qed.
+
+Lemma call_history_range ops a b w p : Forall op_ok ops -> (a <= b <= length (accepted_ops ops))%nat ->
+  let sel := firstn (b - a) (skipn a (accepted_ops ops)) in
+  call_point ROps (run_ops ROps ops []) (Some (Z.of_nat a, Z.of_nat b)) false w p =
+    fold_left (fun q o => step_action o w q) sel p /\
+  call_point ROps (run_ops ROps ops []) (Some (Z.of_nat a, Z.of_nat b)) true w p =
+    fold_left (fun q o => step_inverse_action o w q) (rev sel) p.
+Proof.
+  intros Hok Hab sel. pose proof (Inv_reachable ops Hok) as Hinv.
+  assert (Esel : selected (run_ops ROps ops []) (Some (Z.of_nat a, Z.of_nat b)) = map pair_of sel).
+  { cbn [selected]. rewrite run_ops_accepted. cbn [app]. rewrite pyslice_in_range by (rewrite map_length; lia).
+    rewrite skipn_map', firstn_map'. reflexivity. }
+  split.
+  - rewrite call_is_sequential by exact Hinv. rewrite Esel, fold_left_map. apply fold_left_ext_in.
+    intros q o Ho. assert (Hin : In o (accepted_ops ops)).
+    { unfold sel in Ho. apply In_firstn' in Ho. apply In_skipn' in Ho. exact Ho. }
+    destruct (accepted_In ops o Hin) as (_ & fr & E & Ep). rewrite Ep. unfold step_action. rewrite E.
+    destruct (op_pair_acts o fr q E) as [A B]. destruct w; assumption.
+  - rewrite call_reverse_is_sequential by exact Hinv. rewrite Esel, <- map_rev, fold_left_map. reflexivity.
+Qed.
+(* the inverse action undoes the documented action of the same accepted step, and conversely *)
+Lemma step_inverse_undoes o w q : op_ok o -> accepts o = true ->
+  step_inverse_action o w (step_action o w q) = q /\ step_action o w (step_inverse_action o w q) = q.
+Proof.
+  intros Hok Ha. unfold accepts in Ha. unfold step_inverse_action, step_action, pair_of.
+  destruct (op_pair ROps o) as [fr|e] eqn:E; [|discriminate].
+  destruct (op_pair_ok o fr Hok E) as (Af & Ar & Hrf & Hfr).
+  assert (S : forall x, (if w then doc_action_vec o x else doc_action o x) = apply_point ROps (fst fr) w x).
+  { intros x. destruct (op_pair_acts o fr x E) as [A B]. destruct w; symmetry; assumption. }
+  rewrite !S. split.
+  - rewrite <- apply_point_mmul by exact Af. rewrite Hrf. apply apply_point_I4.
+  - rewrite <- apply_point_mmul by exact Ar. rewrite Hfr. apply apply_point_I4.
+Qed.
+Lemma accepted_length ops : length (run_ops ROps ops []) = length (accepted_ops ops).
+Proof. rewrite run_ops_accepted. cbn [app]. apply map_length. Qed.
